@@ -264,6 +264,10 @@ def cbmc_cmd(job, gb, extra=()):
     if job.unwind is not None:
         cmd += ["--unwind", str(job.unwind)]
     uws = dict(job.unwindset)
+    # loops of libcoap leaf helpers whose bounds are constants of the code (64-bit fls; option filter slots 2+6)
+    uws.setdefault("coap_flsll.0", 66)
+    uws.setdefault("__CPROVER_file_local_coap_option_c_coap_option_filter_op.0", 4)
+    uws.setdefault("__CPROVER_file_local_coap_option_c_coap_option_filter_op.1", 8)
     uws.setdefault("coap_realloc_type.0", 25)
     uws.setdefault("coap_realloc_type.1", 1500)   # env.c byte-copy loop (concrete bound)
     cmd += ["--unwindset", ",".join("%s:%d" % kv for kv in uws.items())]
@@ -565,7 +569,8 @@ def run_job_inner(ctx, job):
                 (f["class"] == "unwind" and job.termination)]
         if not real:
             res.update(verdict="inconclusive",
-                       reason="only %s failures: %s" % (",".join(sorted(classes)), fl[0]["desc"]))
+                       reason="only %s failures: %s" % (",".join(sorted(classes)), "; ".join(
+                           "%s [%s %s:%s]" % (f["desc"], f["property"], os.path.basename(f["file"] or "?"), f["line"]) for f in fl[:4])))
             return res
         # prefer a harness assertion for the trace
         real.sort(key=lambda f: {"assert": 0, "memsafety": 1, "unwind": 2, "ptr-overflow": 3}[f["class"]])
